@@ -1269,6 +1269,15 @@ def main(repo: str, outdir: str, dry: bool = False) -> int:
         return (HEADER + "import Optyx.Py.LPSupport\n\nset_option linter.unusedVariables false\n\n"
                 "namespace Optyx.Generated\nopen Optyx Optyx.Py\n\n" + body + "\nend Optyx.Generated\n")
 
+    def f_jacrowvec():
+        import py2lean
+        try:
+            body = py2lean.gen_jacrow_vec(src("core/vectors.py"), src("core/matrices.py"), src("core/expressions.py"))
+        except py2lean.TranslateError as e:
+            raise TranslateError(str(e))
+        return (HEADER + "import Optyx.Py.Jacobian\n\nset_option linter.unusedVariables false\n\n"
+                "namespace Optyx.Generated\nopen Optyx Optyx.Py Optyx.Py.Jac\n\n" + body + "\nend Optyx.Generated\n")
+
     def f_sort():
         return HEADER + "namespace Optyx.Generated\n\n" + gen_sort_glue(repo) + "\nend Optyx.Generated\n"
 
@@ -1299,7 +1308,7 @@ def main(repo: str, outdir: str, dry: bool = False) -> int:
     for fname, make in tuple((f"Pins{p_}", f_pins(p_)) for p_ in sorted(source_pins.ANCHORS)) + (("GradRules", f_rules), ("Tables", f_tables), ("Closures", f_closures), ("SolverGlue", f_glue),
                         ("JacRow", f_jacrow), ("InitPoint", f_init), ("Dispatch", f_dispatch),
                         ("ApiGlue", f_apiglue), ("LPGlue", f_lpglue), ("SortGlue", f_sort),
-                        ("DegreeStep", f_degstep), ("GradStep", f_gradstep), ("LPStep", f_lpstep)):
+                        ("DegreeStep", f_degstep), ("GradStep", f_gradstep), ("LPStep", f_lpstep), ("JacRowVec", f_jacrowvec)):
         path = os.path.join(outdir, fname + ".lean")
         try:
             text = make()
